@@ -1125,6 +1125,64 @@ def extract_registry(prog):
                 if kind not in ("class", "func"):
                     raise AnalysisError(f"TRANSFORMS entry {k.value} -> {v.id} is not a package class/function")
                 names[k.value] = (kind, q)
+    # module-level statements that store into the registry directly, or through a small registering helper
+    def helper_shape(h):
+        """a module-level function whose whole effect is `for n in <names param>: TRANSFORMS[n] = <obj param>` (names given as
+        *varargs or as one sequence parameter): (position of the object parameter, names-parameter kind) or None"""
+        body = [st for st in h.node.body if not (isinstance(st, ast.Expr) and isinstance(st.value, ast.Constant))]
+        a = h.node.args
+        if len(body) != 1 or not isinstance(body[0], ast.For) or a.kwarg or a.kwonlyargs:
+            return None
+        lp = body[0]
+        if not (isinstance(lp.target, ast.Name) and isinstance(lp.iter, ast.Name) and len(lp.body) == 1 and isinstance(lp.body[0], ast.Assign)):
+            return None
+        st = lp.body[0]
+        t = st.targets[0]
+        if not (isinstance(t, ast.Subscript) and unparse(t.value) == "TRANSFORMS" and unparse(t.slice) == lp.target.id and isinstance(st.value, ast.Name)):
+            return None
+        params = [x.arg for x in a.args]
+        if st.value.id not in params:
+            return None
+        if a.vararg and a.vararg.arg == lp.iter.id:
+            return params.index(st.value.id), "varargs"
+        if lp.iter.id in params:
+            return params.index(st.value.id), ("seq", params.index(lp.iter.id))
+        return None
+
+    def add(name_node, obj_node):
+        if not (is_str_const(name_node) and isinstance(obj_node, ast.Name)):
+            raise AnalysisError(f"TRANSFORMS entry not `str: name`: {unparse(name_node)}: {unparse(obj_node)}")
+        kind, q = prog.resolve(tm, obj_node.id)
+        if kind not in ("class", "func"):
+            raise AnalysisError(f"TRANSFORMS entry {name_node.value} -> {obj_node.id} is not a package class/function")
+        names[name_node.value] = (kind, q)
+
+    for node in tm.tree.body:
+        if isinstance(node, ast.Assign) and len(node.targets) == 1 and isinstance(node.targets[0], ast.Subscript) \
+                and unparse(node.targets[0].value) == "TRANSFORMS":
+            add(node.targets[0].slice, node.value)
+            found_update = True
+        if isinstance(node, ast.Expr) and isinstance(node.value, ast.Call) and isinstance(node.value.func, ast.Name):
+            h = tm.functions.get(node.value.func.id)
+            shp = helper_shape(h) if h is not None and h.name != "register_stateful_transform" else None
+            if shp is None:
+                continue
+            c = node.value
+            if c.keywords or any(isinstance(x, ast.Starred) for x in c.args):
+                raise AnalysisError(f"registry helper call `{unparse(c)[:60]}` uses keywords / star arguments")
+            obj_pos, names_kind = shp
+            if names_kind == "varargs":
+                nparams = len(h.node.args.args)
+                obj = c.args[obj_pos]
+                for nm in c.args[nparams:]:
+                    add(nm, obj)
+            else:
+                seq = c.args[names_kind[1]]
+                if not isinstance(seq, (ast.List, ast.Tuple)):
+                    raise AnalysisError(f"registry helper call `{unparse(c)[:60]}`: names are not a literal sequence")
+                for nm in seq.elts:
+                    add(nm, c.args[obj_pos])
+            found_update = True
     if not found_update:
         raise AnalysisError("TRANSFORMS.update({...}) not found in transforms.py")
     enc = {}
